@@ -263,6 +263,20 @@ def site_case(c):
         for d in def_nodes:
             common = util.common_dom(idom, common, d)
         return str(common.name)
+    if op == "cdomg":
+        # general form: node ids differ from the numbers; a root has idom None; "err" = KeyError / None.num
+        nodes = {int(i): bb.StatementBlock(str(i), []) for i in c["nums"]}
+        for i, n in nodes.items():
+            n.num = c["nums"][str(i)]
+        idom = {nodes[int(i)]: (None if p is None else nodes[p]) for i, p in c["parents"].items()}
+        def_nodes = set(nodes[i] for i in c["nodes"])
+        try:
+            common = def_nodes.pop()                   # dataflow.place_declarations, lines 490-494
+            for d in def_nodes:
+                common = util.common_dom(idom, common, d)
+        except (KeyError, AttributeError):
+            return "err"
+        return str(common.name)
     if op == "lfollow":
         objs = {}
         for n, (iscond, t, f) in c["info"].items():
